@@ -89,7 +89,8 @@ def _c12(failure, fd):
 
 
 def check(run, record_expected=False):
-    ded = deductive.run_deductive(run, ["doctrans.pure_utils:location_within"], only={("doctrans.pure_utils:location_within", "tokens=2")})
+    ded = deductive.run_deductive(run, ["doctrans.pure_utils:location_within", "doctrans.parser_utils:ir_merge", "doctrans.parser_utils:_join_non_none"],
+                                  only={("doctrans.pure_utils:location_within", "tokens=2")} | {(c.func, cs.name) for c in __import__("vf.contracts.parser_utils", fromlist=["CONTRACTS"]).CONTRACTS for cs in c.cases})
     if record_expected:
         return ded
     items, inventory = audit.run_audit(unordered_ok=UNORDERED_OK)
